@@ -168,12 +168,18 @@ func (s *Script) String() string {
 // Match returns true if the script returns true when evaluated against the
 // data argument.
 func (s *Script) Match(data any) bool {
+	return s.matchWithRoot(data, data)
+}
+
+// matchWithRoot is Match with $ in the script referring to root, the
+// document being walked, instead of to data itself.
+func (s *Script) matchWithRoot(data, root any) bool {
 	stack := []any{}
 	if node, ok := data.(gen.Node); ok {
-		ns, _ := s.evalWithRoot(stack, gen.Array{node}, data)
+		ns, _ := s.evalWithRoot(stack, gen.Array{node}, root)
 		stack, _ = ns.([]any)
 	} else {
-		ns, _ := s.evalWithRoot(stack, []any{data}, data)
+		ns, _ := s.evalWithRoot(stack, []any{data}, root)
 		stack, _ = ns.([]any)
 	}
 	return 0 < len(stack)
